@@ -15,6 +15,8 @@ for f in sorted(glob.glob(os.path.join(HERE, "seeded", "*", "meta.json"))):
                 first = ln
                 break
     fired = "; ".join("%s: %s" % (k, ", ".join(sorted({x.split(" ")[0] for x in v}))) for k, v in sorted(m["checks_that_fire"].items())) or "none"
+    if m.get("declined"):
+        fired = "none - DECLINED: " + m.get("declined_reason", "")[:200]
     und = ", ".join(sorted(m.get("checks_that_cannot_decide", {}))) or "-"
     rows.append("| %s | %s | %s | %s | %s |" % (m["id"], m["breaks_property"], first.replace("|", "/")[:170], fired, und))
 out = ["# Seeded changes and the checks that catch them", "",
